@@ -18,7 +18,11 @@ RULE = ('Prefix clause: every prefix over the 14-letter byte-class alphabet up t
         'real-time bytes, exhaustively for one and two insertions, Hypothesis for many insertions in long payloads. '
         'Oracle: parse_all(P+enc(M)) == parse_all(P)+[M]; parse_all(concat) == list; sysex with real-time bytes r1..rk '
         'inserted == [R1..Rk, sysex]. Non-trivial = the prefix leaves a message open (independent "ends open" test) / an '
-        'insertion between two payload bytes; distinct by input.')
+        'insertion between two payload bytes; distinct by input.'
+        ' Later additions: segment streams with yield known by construction ([cut, whole, tail, whole] for every'
+        ' type and cut position, and drawn segment lists) through every way of feeding (list, bytes, generator,'
+        ' iterator, byte-wise early/late, int subclasses, IntEnum members); 140 000-message streams; results'
+        ' scribbled on by the caller must not change later parses.')
 ASSUMPTIONS = ['the reference encoder (lib/refmidi.py) supplies the encodings, so the oracle does not rely on mido encoders']
 
 RT_BYTES = sorted(R.REALTIME_BY_STATUS)
